@@ -11,6 +11,7 @@ import (
 	"path"
 	"path/filepath"
 	"sort"
+	"strconv"
 	"strings"
 	"sync"
 	"syscall"
@@ -959,9 +960,28 @@ func (self *Metadata) uncheckedReset() error {
 	if self.uniquifier == "" {
 		return self.mkdirs()
 	} else {
+		old := self.uniquifier
 		self.uniquifier = ""
+		// The attempt which is set up now must not share its id - and with
+		// it its directory and journal names - with the one it replaces,
+		// even within the second in which that one was set up.
+		self.uniquifier = laterUniquifier(old)
 		return self.uniquify()
 	}
+}
+
+// Returns a uniquifier for an attempt that follows the one identified by
+// old: the current one, unless that is not later than old.
+func laterUniquifier(old string) string {
+	u := makeUniquifier()
+	if len(old) == len(u) && old[:4] == u[:4] {
+		ot, err1 := strconv.ParseUint(old[4:], 16, 32)
+		nt, err2 := strconv.ParseUint(u[4:], 16, 32)
+		if err1 == nil && err2 == nil && nt <= ot && ot-nt < 1<<16 {
+			return fmt.Sprintf("%s%06x", u[:4], (ot+1)&0xffffff)
+		}
+	}
+	return u
 }
 
 // Resets the metadata if the state was queued, but the job manager had not yet
